@@ -42,6 +42,35 @@ func (w *Workspace) newGen(fn *ssa.Function, ct *Contract) *Gen {
 	strLitOrder = nil
 	typePkgCache = nil
 	g.sorts.opaque["Ctx"] = true
+	if ct != nil && fn != nil && len(ct.Params) == len(fn.Params) {
+		for i, p := range fn.Params {
+			if ct.Params[i] != p.Name() && ct.Params[i] != "_" {
+				if g.renames == nil {
+					g.renames = map[string]string{}
+				}
+				g.renames[ct.Params[i]] = p.Name()
+				g.notes = append(g.notes, fmt.Sprintf("parameter %d was called %s when the contract was written, now %s", i, ct.Params[i], p.Name()))
+			}
+		}
+	}
+	if ct != nil && fn != nil && len(ct.Locals) > 0 {
+		cur := orderedLocals(fn)
+		m := alignLocals(ct.Locals, cur)
+		var parts []string
+		for k, v := range m {
+			if k != v {
+				if g.renames == nil {
+					g.renames = map[string]string{}
+				}
+				g.renames[k] = v
+				parts = append(parts, k+" -> "+v)
+			}
+		}
+		if len(parts) > 0 {
+			sort.Strings(parts)
+			g.notes = append(g.notes, "locals recorded with the contract aligned with the current source order: "+strings.Join(parts, ", "))
+		}
+	}
 	if ct != nil {
 		for _, u := range ct.Uses {
 			g.useTheory(u)
